@@ -210,6 +210,24 @@ Theorem C13_clone_creates : forall s from xlat r s',
 Proof. exact clone_creates. Qed.
 Print Assumptions C13_clone_creates.
 
+(** the private copy made for a KDUMP_CLONE_XLAT clone keeps value and flags of
+    every attribute that has a value: what the application set is persistent in
+    the clone too, so opening a dump through the clone keeps it *)
+Theorem C13_clone_preserves_persist : forall n,
+  akey (clone_node n) = akey n /\ aty (clone_node n) = aty n /\
+  aisset (clone_node n) = aisset n /\
+  (aisset n = true -> apersist (clone_node n) = apersist n /\ aval_of (clone_node n) = aval_of n) /\
+  (aisset n = false -> apersist (clone_node n) = false).
+Proof. exact clone_node_flags. Qed.
+Print Assumptions C13_clone_preserves_persist.
+
+Theorem C13_clone_then_reopen_keeps : forall n,
+  aisset n = true -> apersist n = true ->
+  entry_of (fst (clear_volatile (clone_node n))) =
+  {| e_ty := aty n; e_set := true; e_persist := true; e_val := aval_of n |}.
+Proof. exact clone_then_reopen_keeps. Qed.
+Print Assumptions C13_clone_then_reopen_keeps.
+
 Theorem C13_overlay_stays : forall p f inst ov,
   keeps_key f -> keeps_kid_keys f -> overlay_ok ov -> overlay_ok (fst (update_at p f inst ov)).
 Proof. exact update_at_overlay_ok. Qed.
